@@ -52,8 +52,10 @@ bool Char::load(std::istream &in, Context&) {
 
     in.ignore(1); // whitespace
     value = in.get();
+    if (in.fail()) return false;
+    if (value == '\n' && in.peek() == '#') in.ignore(1);
 
-    return !in.fail();
+    return true;
 }
 
 
